@@ -34,27 +34,27 @@ STATIC = ('Static analysis of the MIR rustc produces for the real cargo build (r
 
 PROPERTIES = {
     'C01': P('ordered collection equals sequential iteration',
-             ['C01-KEY', 'C01-APPEND', 'C01-MERGE', 'C01-RESERVE', 'C01-COMPOSE', 'C05-VISIT', 'C05-NOSKIP', 'C05-SOURCE', 'S2', 'S4', 'S5', 'S1', 'C15-CLAMP', 'C15-CHUNKCAP', 'C15-CHUNKCAP-U', 'C01-FRESH', 'C05-WORKER', 'C05-ACCEPT', 'C05-FEED', 'C05-CONSUME', 'C06-MUT', 'C05-FALLIBLE', 'C01-KEEP', 'C01-NOSHUFFLE', 'C01-CONJ', 'C05-ENTRY', 'C06-GROW', 'C09-EMPTY'],
+             ['C01-KEY', 'C01-APPEND', 'C01-MERGE', 'C01-RESERVE', 'C01-COMPOSE', 'C05-VISIT', 'C05-NOSKIP', 'C05-SOURCE', 'S2', 'S4', 'S5', 'S1', 'C15-CLAMP', 'C15-CHUNKCAP', 'C15-CHUNKCAP-U', 'C01-FRESH', 'C05-WORKER', 'C05-ACCEPT', 'C05-FEED', 'C05-CONSUME', 'C06-MUT', 'C05-FALLIBLE', 'C01-KEEP', 'C01-NOSHUFFLE', 'C01-CONJ', 'C05-ENTRY', 'C06-GROW', 'C09-EMPTY', 'C05-OUTSIDE'],
              STATIC + 'Decided: merge keys / positional slots are the source positions delivered by the pull that produced the value; '
              'per-thread buffers are append-only; def-use facts of the k-way merge; capacity reservation dominates the positional path; '
              'stage order in composed closures; all per-thread results reach the merge; ordered terminals never reach an unordered kernel; '
              'the parameter resolution cannot panic and bounds every chunk size by the known input length (no position wrap-around). '
              'Not decided: functional correctness of the merge for every key multiset, equality over all inputs.'),
     'C02': P('find/first/any/all answer with the first match in source order',
-             ['C02-MINIDX', 'C02-IDX', 'C02-FIRST', 'C02-ACCEPT', 'C02-ANYALL', 'C01-COMPOSE', 'S2', 'S4', 'S5', 'C15-CLAMP', 'C15-CHUNKCAP', 'C15-CHUNKCAP-U', 'C01-FRESH', 'C02-FRESHSEQ', 'C05-SOURCE', 'C05-WORKER', 'C01-KEEP', 'C01-NOSHUFFLE', 'C02-EAGERIDX', 'C02-EXHAUST', 'C01-CONJ', 'C05-ENTRY'],
+             ['C02-MINIDX', 'C02-IDX', 'C02-FIRST', 'C02-ACCEPT', 'C02-ANYALL', 'C01-COMPOSE', 'S2', 'S4', 'S5', 'C15-CLAMP', 'C15-CHUNKCAP', 'C15-CHUNKCAP-U', 'C01-FRESH', 'C02-FRESHSEQ', 'C05-SOURCE', 'C05-WORKER', 'C01-KEEP', 'C01-NOSHUFFLE', 'C02-EAGERIDX', 'C02-EXHAUST', 'C01-CONJ', 'C05-ENTRY', 'C05-OUTSIDE'],
              STATIC + 'Decided: the cross-thread reduction of find results is min-by-index on its whole finite domain; reported indices '
              'originate from the pull position; each task returns its own first match, searched with exactly the user filter as acceptance test; any/all/find_with_index wiring. '
              'Not decided: the schedule quantifier itself (discharged compositionally through T3).'),
     'C03': P('reduce family combines every surviving element exactly once',
-             ['C03-MAYBE', 'C03-THREAD', 'C03-OUTER', 'C03-WRAP', 'C05-VISIT', 'C05-NOSKIP', 'S2', 'S4', 'S5', 'C15-CLAMP', 'C15-CHUNKCAP', 'C15-CHUNKCAP-U', 'C05-SOURCE', 'C05-WORKER', 'C05-ACCEPT', 'C05-FEED', 'C05-CONSUME', 'C05-FALLIBLE', 'C01-KEEP', 'C05-SEED', 'C01-CONJ', 'C03-OPARG', 'C05-ENTRY'],
+             ['C03-MAYBE', 'C03-THREAD', 'C03-OUTER', 'C03-WRAP', 'C05-VISIT', 'C05-NOSKIP', 'S2', 'S4', 'S5', 'C15-CLAMP', 'C15-CHUNKCAP', 'C15-CHUNKCAP-U', 'C05-SOURCE', 'C05-WORKER', 'C05-ACCEPT', 'C05-FEED', 'C05-CONSUME', 'C05-FALLIBLE', 'C01-KEEP', 'C05-SEED', 'C01-CONJ', 'C03-OPARG', 'C05-ENTRY', 'C05-OUTSIDE'],
              STATIC + 'Decided: maybe_reduce truth table; accumulator threading in every reduce task; outer operator is the user operator '
              'lifted over Option; provided-method wrappers. Not decided: numerical equality over schedules.'),
     'C04': P('count and for_each visit every surviving element exactly once',
-             ['C04-SUM', 'C04-THREAD', 'C04-FOREACH', 'C04-CHAIN', 'C05-VISIT', 'C05-NOSKIP', 'S2', 'S4', 'S5', 'C05-DRIVE', 'C15-CLAMP', 'C15-CHUNKCAP', 'C15-CHUNKCAP-U', 'C05-SOURCE', 'C05-WORKER', 'C05-ACCEPT', 'C05-FEED', 'C05-CONSUME', 'C05-FALLIBLE', 'C01-KEEP', 'C01-CONJ', 'C05-ENTRY'],
+             ['C04-SUM', 'C04-THREAD', 'C04-FOREACH', 'C04-CHAIN', 'C05-VISIT', 'C05-NOSKIP', 'S2', 'S4', 'S5', 'C05-DRIVE', 'C15-CLAMP', 'C15-CHUNKCAP', 'C15-CHUNKCAP-U', 'C05-SOURCE', 'C05-WORKER', 'C05-ACCEPT', 'C05-FEED', 'C05-CONSUME', 'C05-FALLIBLE', 'C01-KEEP', 'C01-CONJ', 'C05-ENTRY', 'C05-OUTSIDE'],
              STATIC + 'Decided: counts are summed with + and default 0; count accumulators are threaded; for_each = count(map(f)); counting '
              'chains cannot skip closures. Not decided: multiset equality over schedules.'),
     'C05': P('closures run exactly once per element; source advanced by one thread at a time',
-             ['C05-AFFINE', 'C05-ONCE', 'C05-MERGE', 'C01-COMPOSE', 'C05-VISIT', 'C05-WORKER', 'C05-SOURCE', 'C05-NOSKIP', 'C05-DRIVE', 'C15-CHUNKCAP', 'C05-ACCEPT', 'C05-FEED', 'C05-CONSUME', 'C05-FALLIBLE', 'C01-KEEP', 'C05-SEED', 'C01-CONJ', 'C05-STAGEUSE', 'C05-ENTRY'],
+             ['C05-AFFINE', 'C05-ONCE', 'C05-MERGE', 'C01-COMPOSE', 'C05-VISIT', 'C05-WORKER', 'C05-SOURCE', 'C05-NOSKIP', 'C05-DRIVE', 'C15-CHUNKCAP', 'C05-ACCEPT', 'C05-FEED', 'C05-CONSUME', 'C05-FALLIBLE', 'C01-KEEP', 'C05-SEED', 'C01-CONJ', 'C05-STAGEUSE', 'C05-ENTRY', 'C05-OUTSIDE'],
              STATIC + 'Decided: stage closures take elements by value; by-reference closures are called at most once per element between '
              'pulls and never handed to the runner outside the task; downstream stages run only on survivors; must-visit tasks observe exhaustion and drop no pulled element; every spawn host starts a worker while the source reports elements; by-value '
              'iterators enter only through the serialising wrapper, built from the whole collection; skip_to_end is raised only by find tasks holding '
@@ -65,11 +65,11 @@ PROPERTIES = {
              'appends; the write offset is the target length taken before the run; the reservation before every positional conversion covers existing '
              '+ incoming elements; nothing is appended onto a FixedVec directly; no bridge vector the crate builds by a data conversion goes through the reservation. Not decided: dependency conversions keep contents.'),
     'C07': P('collect_x returns a permutation of the sequential result',
-             ['C07-FRAG', 'C07-TASK', 'C07-SEQ', 'C01-APPEND', 'C05-VISIT', 'C05-NOSKIP', 'S1', 'S2', 'S4', 'S5', 'C15-CLAMP', 'C15-CHUNKCAP', 'C15-CHUNKCAP-U', 'C05-SOURCE', 'C05-WORKER', 'C05-ACCEPT', 'C05-FEED', 'C05-CONSUME', 'C05-FALLIBLE', 'C01-KEEP', 'C01-NOSHUFFLE', 'C01-CONJ', 'C05-ENTRY', 'C07-BUFSITE'],
+             ['C07-FRAG', 'C07-TASK', 'C07-SEQ', 'C01-APPEND', 'C05-VISIT', 'C05-NOSKIP', 'S1', 'S2', 'S4', 'S5', 'C15-CLAMP', 'C15-CHUNKCAP', 'C15-CHUNKCAP-U', 'C05-SOURCE', 'C05-WORKER', 'C05-ACCEPT', 'C05-FEED', 'C05-CONSUME', 'C05-FALLIBLE', 'C01-KEEP', 'C01-NOSHUFFLE', 'C01-CONJ', 'C05-ENTRY', 'C07-BUFSITE', 'C05-OUTSIDE'],
              STATIC + 'Decided: every per-thread fragment returned by the runner is appended unmodified; tasks only append; sequential mode '
              'is the ordered collect. Not decided: multiset equality over schedules; append keeps all fragments (T3).'),
     'C08': P('NumThreads::Max(n) bounds concurrency; Max(1) runs on the calling thread',
-             ['C08-WHO', 'C08-SPAWN', 'C08-GUARD', 'C08-MAX', 'C08-SEQ', 'C08-CALLER', 'S1', 'S6', 'S3', 'S7', 'C12-STORE', 'C12-NOSET', 'C05-ENTRY'],
+             ['C08-WHO', 'C08-SPAWN', 'C08-GUARD', 'C08-MAX', 'C08-SEQ', 'C08-CALLER', 'S1', 'S6', 'S3', 'S7', 'C12-STORE', 'C12-NOSET', 'C05-ENTRY', 'C05-OUTSIDE'],
              STATIC + 'Decided: threads are created only in the runner entries; every in-loop spawn is guarded by do_spawn and counted; '
              'do_spawn is true only if spawned+1 < max; max <= n for Max(n); Max(1) reaches no runner entry. '
              'Not decided: OS scheduling (thread::scope semantics, T2).'),
@@ -80,7 +80,7 @@ PROPERTIES = {
              'like std (first minimum, last maximum); no stage is re-parameterised by the library; a composed closure shows a stage only the elements the earlier stages let through. '
              'Not decided: into_seq_iter order (T3).'),
     'C10': P('short-circuit terminals stop consuming input once a match is known',
-             ['C10-SIGNAL', 'C10-NOPULL', 'C10-LAZYSEQ', 'C10-LAZYINNER', 'C10-STOPSPAWN', 'C10-CHUNKDEP', 'C02-FIRST', 'S4', 'C16', 'C15-CHUNKCAP', 'S7'],
+             ['C10-SIGNAL', 'C10-NOPULL', 'C10-LAZYSEQ', 'C10-LAZYINNER', 'C10-STOPSPAWN', 'C10-CHUNKDEP', 'C02-FIRST', 'S4', 'C16', 'C15-CHUNKCAP', 'S7', 'C05-OUTSIDE'],
              STATIC + 'Decided: every path of a find task that may return a match raised skip_to_end first; no pull is reachable after a '
              'match; sequential find kernels are lazy; composed closures never drain an iterator fed by a user closure; the spawn loop stops when the source is exhausted. '
              'Not decided: liveness under a fair scheduler (T3: skip_to_end makes later pulls return None).'),
@@ -108,7 +108,7 @@ PROPERTIES = {
              '(a dead worker advances nothing) and no blocking primitive is called; no chain closure is moved into the serialised source of a '
              'concurrent iterator. Not decided: thread::scope re-raises (T2).'),
     'C15': P('parameters never change a result or make a computation fail',
-             ['C15-OBLIG', 'C15-CLAMP', 'C15-ALLOC', 'C15-CHUNKCAP', 'C15-CHUNKCAP-U', 'C15-STACK', 'C15-TIES', 'C01-KEY', 'C01-MERGE', 'C02-MINIDX', 'C02-FIRST', 'C03-THREAD', 'C03-OUTER', 'C03-MAYBE', 'C04-THREAD', 'C04-SUM', 'C05-VISIT', 'C07-FRAG', 'S2', 'S4', 'S5', 'C15-TERMINATE', 'C01-RESERVE', 'C06-BRIDGE', 'C05-SEED', 'C02-EXHAUST', 'C01-NOSHUFFLE', 'C03-OPARG', 'C05-ENTRY', 'C06-GROW', 'C15-BUFSITE'],
+             ['C15-OBLIG', 'C15-CLAMP', 'C15-ALLOC', 'C15-CHUNKCAP', 'C15-CHUNKCAP-U', 'C15-STACK', 'C15-TIES', 'C01-KEY', 'C01-MERGE', 'C02-MINIDX', 'C02-FIRST', 'C03-THREAD', 'C03-OUTER', 'C03-MAYBE', 'C04-THREAD', 'C04-SUM', 'C05-VISIT', 'C07-FRAG', 'S2', 'S4', 'S5', 'C15-TERMINATE', 'C01-RESERVE', 'C06-BRIDGE', 'C05-SEED', 'C02-EXHAUST', 'C01-NOSHUFFLE', 'C03-OPARG', 'C05-ENTRY', 'C06-GROW', 'C15-BUFSITE', 'C05-OUTSIDE'],
              STATIC + 'Decided: every panic site (overflow/div-by-zero assertion, expect, assert) of the parameter-resolution slice that '
              'depends on the configuration is discharged by a dominating guard, a constructor invariant, an arithmetic lemma or a stated '
              'assumption; every size handed to an allocating API and, for sources of known length, every resolved chunk size is bounded by the '
